@@ -81,7 +81,7 @@ theorem C05_installed_hash_is_perfect (classes : List (List UInt64)) (budget : N
     (∀ c ∈ classes, ∀ t ∈ c, ∀ c' ∈ classes, ∀ t' ∈ c',
       hashIdx st'.mult st'.shift t = hashIdx st'.mult st'.shift t' → t = t') := by
   unfold hashSearch at h
-  obtain ⟨M', mn0, mx0, _, hf, hb, hlen⟩ := searchPasses_found classes budget 4 _ mults st 0 st' buckets att rest h
+  obtain ⟨M', mn0, mx0, _, hf, hb, hlen⟩ := searchPasses_found classes budget Generated.hashPasses _ mults st 0 st' buckets att rest h
   obtain ⟨p1, p2⟩ := found_is_perfect (hashIdx st'.mult st'.shift) (2 ^ M') mn0 mx0 classes hs hf
   constructor
   · intro c hc t ht
@@ -98,7 +98,7 @@ theorem C05_buckets_hold_only_registered (classes : List (List UInt64)) (budget 
     (id : UInt64) (hid : id ≠ sentinel) (hunreg : ∀ c ∈ classes, id ∉ c) (j : Nat) :
     buckets[j]? ≠ some id := by
   unfold hashSearch at h
-  obtain ⟨M', mn0, mx0, _, hf, hb, _⟩ := searchPasses_found classes budget 4 _ mults st 0 st' buckets att rest h
+  obtain ⟨M', mn0, mx0, _, hf, hb, _⟩ := searchPasses_found classes budget Generated.hashPasses _ mults st 0 st' buckets att rest h
   rw [hb]
   exact unregistered_not_in_buckets (hashIdx st'.mult st'.shift) (2 ^ M') mn0 mx0 classes hs hf id hid hunreg j
 
@@ -166,7 +166,7 @@ theorem C05_checked_rejects_unregistered (classes : List (List UInt64)) (budget 
       subst hi
       have h' := h
       unfold hashSearch at h'
-      obtain ⟨M', mn0, mx0, _, _, hb, _⟩ := searchPasses_found classes budget 4 _ mults st 0 st' buckets att rest h'
+      obtain ⟨M', mn0, mx0, _, _, hb, _⟩ := searchPasses_found classes budget Generated.hashPasses _ mults st 0 st' buckets att rest h'
       rw [hb, attempt_size] at hsz
       have : 0 < 2 ^ M' := Nat.two_pow_pos M'
       omega
